@@ -5,7 +5,7 @@ CONSTANTS
   MaxMsg = 4
   Caps <- CapsZ
   Grows <- GrowsQ
-  Pres <- PresQ
+  Pres <- PresG
   CapMax = 8
 CONSTRAINT Bound
 VIEW Skel
